@@ -106,6 +106,53 @@ func (*Typechecker).VisitCastExpr [C04, C02]
             ast.castAdmissible(clsOf(lhs), clsOf(expr.TargetType)) ==>
             t.Module.Ast.Faulty == at(LS, t.Module.Ast.Faulty) && t.latestReturnedType == expr.TargetType
 
+// --- statements: conditions and return values ---
+// the condition of a Wenn statement must be a Wahrheitswert
+func (*Typechecker).VisitIfStmt [C04]
+  requires t != nil && t.Module != nil && t.Module.Ast != nil && t.panicMode != nil && stmt != nil
+  at LC after call Evaluate
+  at LV before call visit
+  ensures reached(LV) && !at(LV, ddptypes.Equal(conditionType, ddptypes.WAHRHEITSWERT)) ==> at(LV, t.Module.Ast.Faulty)
+  ensures reached(LV) && at(LV, ddptypes.Equal(conditionType, ddptypes.WAHRHEITSWERT)) ==> at(LV, t.Module.Ast.Faulty) == at(LC, t.Module.Ast.Faulty)
+// solange / mache need a Wahrheitswert, wiederhole a Zahl or a Byte
+func (*Typechecker).VisitWhileStmt [C04]
+  requires t != nil && t.Module != nil && t.Module.Ast != nil && t.panicMode != nil && stmt != nil && stmt.Body != nil
+  at LC after call Evaluate
+  at LV before call Accept
+  ensures reached(LV) ==> at(LV, (stmt.While.Type == token.SOLANGE || stmt.While.Type == token.MACHE) && !ddptypes.Equal(conditionType, ddptypes.WAHRHEITSWERT) ==> t.Module.Ast.Faulty)
+  ensures reached(LV) && at(LV, (stmt.While.Type == token.SOLANGE || stmt.While.Type == token.MACHE) && ddptypes.Equal(conditionType, ddptypes.WAHRHEITSWERT)) ==> at(LV, t.Module.Ast.Faulty) == at(LC, t.Module.Ast.Faulty)
+  ensures reached(LV) ==> at(LV, stmt.While.Type == token.WIEDERHOLE && !(ddptypes.Equal(conditionType, ddptypes.ZAHL) || ddptypes.Equal(conditionType, ddptypes.BYTE)) ==> t.Module.Ast.Faulty)
+  ensures reached(LV) && at(LV, stmt.While.Type == token.WIEDERHOLE && (ddptypes.Equal(conditionType, ddptypes.ZAHL) || ddptypes.Equal(conditionType, ddptypes.BYTE))) ==> at(LV, t.Module.Ast.Faulty) == at(LC, t.Module.Ast.Faulty)
+// counting loop: counter, end value and step size must be numeric
+func (*Typechecker).VisitForStmt [C04]
+  requires t != nil && t.Module != nil && t.Module.Ast != nil && t.panicMode != nil && stmt != nil && stmt.Body != nil && stmt.Initializer != nil
+  at LT after call Evaluate#1
+  at LS after call Evaluate#2
+  at LV before call Accept
+  ensures reached(LV) ==> at(LV, !ddptypes.IsNumeric(toType) ==> t.Module.Ast.Faulty)
+  ensures reached(LV) && reached(LS) ==> at(LV, !ddptypes.IsNumeric(stepType) ==> t.Module.Ast.Faulty)
+  ensures reached(LV) && reached(LS) && at(LV, ddptypes.IsNumeric(stepType)) ==> at(LV, t.Module.Ast.Faulty) == at(LS, t.Module.Ast.Faulty)
+  ensures reached(LV) && !reached(LS) && at(LV, ddptypes.IsNumeric(toType)) ==> at(LV, t.Module.Ast.Faulty) == at(LT, t.Module.Ast.Faulty)
+// iteration: only over Texts and lists, and the loop variable has the element type
+func (*Typechecker).VisitForRangeStmt [C04]
+  requires t != nil && t.Module != nil && t.Module.Ast != nil && t.panicMode != nil && stmt != nil && stmt.Body != nil && stmt.Initializer != nil
+  at LC after call Evaluate
+  at LV before call Accept
+  ensures reached(LV) ==> at(LV, !ddptypes.IsList(inType) && !ddptypes.Equal(inType, ddptypes.TEXT) ==> t.Module.Ast.Faulty)
+  ensures reached(LV) ==> at(LV, ddptypes.Equal(inType, ddptypes.TEXT) && !ddptypes.Equal(elementType, ddptypes.BUCHSTABE) ==> t.Module.Ast.Faulty)
+  ensures reached(LV) ==> at(LV, ddptypes.IsList(inType) && !ddptypes.Equal(elementType, ddptypes.GetListElementType(inType)) ==> t.Module.Ast.Faulty)
+  ensures reached(LV) && at(LV, (ddptypes.Equal(inType, ddptypes.TEXT) && ddptypes.Equal(elementType, ddptypes.BUCHSTABE)) || (ddptypes.IsList(inType) && ddptypes.Equal(elementType, ddptypes.GetListElementType(inType)))) ==>
+            at(LV, t.Module.Ast.Faulty) == at(LC, t.Module.Ast.Faulty)
+// a returned value must have the function's return type (any value but "nothing" for a Variable result)
+spec retAccepts(ft ddptypes.Type, rt ddptypes.Type) bool :=
+  ddptypes.Equal(ft, rt) || (ddptypes.Equal(ft, ddptypes.VARIABLE) && !ddptypes.Equal(rt, mk[ddptypes.VoidType]()))
+func (*Typechecker).VisitReturnStmt [C04]
+  requires t != nil && t.Module != nil && t.Module.Ast != nil && t.panicMode != nil && stmt != nil
+  at LE after call Evaluate
+  ensures stmt.Func != nil && !retAccepts(stmt.Func.ReturnType, returnType) ==> t.Module.Ast.Faulty
+  ensures stmt.Func != nil && retAccepts(stmt.Func.ReturnType, returnType) && reached(LE) ==> t.Module.Ast.Faulty == at(LE, t.Module.Ast.Faulty)
+  ensures stmt.Func != nil && retAccepts(stmt.Func.ReturnType, returnType) && !reached(LE) ==> t.Module.Ast.Faulty == old(t.Module.Ast.Faulty)
+
 // ================= C14 / C04: what a variable accepts =================
 // verbatim from the statement: equivalent types, any numeric type for any numeric type, and any value but
 // 'nothing' for Variable
